@@ -368,6 +368,8 @@ func thorough(pr *rules.Property, base *core.Report, repo string, extra map[stri
 				r.OK = false
 			case !r.Applied:
 				r.OK = true // skipped: locator does not apply to this tree
+			case c.Positive && c.Rule == "known-miss":
+				r.OK = true // a seeded change the rules are known not to report (seeded/KNOWN_MISSES.json)
 			case c.Positive:
 				r.OK = false
 				for _, f := range newFired {
